@@ -14,7 +14,10 @@ import (
 //   crash k- : the process dies right before the k-th call -> restart; resync -> recovery oracle
 //   crash k+ : the process dies right after the k-th call  -> restart; resync -> recovery oracle
 
-func agreeMemStore(w *world.World) *Finding {
+func agreeMemStore(w *world.World) *Finding { return agreeMemStoreExcept(w, nil) }
+
+// agreeMemStoreExcept is agreeMemStore ignoring store objects of the IPs in skip.
+func agreeMemStoreExcept(w *world.World, skip map[string]bool) *Finding {
 	mem, f := memByIP(w)
 	if f != nil {
 		return f
@@ -30,7 +33,7 @@ func agreeMemStore(w *world.World) *Finding {
 		}
 	}
 	for ip, so := range st {
-		if _, ok := mem[ip]; !ok {
+		if _, ok := mem[ip]; !ok && !skip[ip] {
 			return &Finding{Clause: "store-object-unknown-to-memory", Detail: fmt.Sprintf("%v", so)}
 		}
 	}
